@@ -56,7 +56,7 @@ def gen(rng, ctx):
     if rng.random() < 0.35:
         # in-place edit between two rounds of queries on the SAME Circuit object (stale caches)
         plain = [n for n in nodes if "." not in n]
-        edit = rng.choice([["relabel", rng.choice(plain)], ["add_node", rng.choice(plain)], ["remove", rng.choice(plain)], ["connect", rng.choice(plain), rng.choice(plain)]])
+        edit = rng.choice([["relabel", rng.choice(plain)], ["add_node", rng.choice(plain)], ["remove", rng.choice(plain)], ["connect", rng.choice(plain), rng.choice(plain)], ["rewire", rng.getrandbits(30)], ["rewire", rng.getrandbits(30)]])
     return {"c": cd, "kind": kind, "lists": lists, "singles": singles, "k": rng.randint(1, 4), "via": rng.choice(["graph", "sparse", "api"]), "edit": edit}
 
 
@@ -89,6 +89,22 @@ def check(case, ctx):
             c.relabel(ren)
         elif ed[0] == "add_node":
             c.add("zz_new", "buf", fanin=ed[1], output=True)
+        elif ed[0] == "rewire":
+            # move one wire: same number of nodes and edges, but a loop may appear or disappear
+            import random
+
+            rr = random.Random(ed[1])
+            edges = sorted(c.edges())
+            multi = sorted(n for n in c.nodes() if c.type(n) in G.GATESN)
+            if not edges or not multi:
+                return
+            u, v = rr.choice(edges)
+            tgt = rr.choice(multi)
+            src = rr.choice(sorted(n for n in c.nodes() if c.type(n) in G.ALL_GATES))
+            if (src, tgt) in c.edges() or src == tgt:
+                return
+            c.disconnect(u, v)
+            c.connect(src, tgt)
         elif ed[0] == "remove":
             c.remove(ed[1])
         else:
@@ -243,5 +259,5 @@ def queries(case, ctx, c, singles, lists, phase=""):
 
 
 def gates(counters, table, tier):
-    need = ["requery_after:relabel", "requery_after:connect", "class:dag", "class:dag+bb", "class:cyclic", "cmp:levelize", "cmp:kcuts", "reconv:nonempty", "reconv:empty", "cmp:depth_rejects_cyclic", "cmp:fanout_depthL", "cmp:fanin_depth1", "kcuts:nontrivial_sets"]
+    need = ["requery_after:rewire", "requery_after:relabel", "requery_after:connect", "class:dag", "class:dag+bb", "class:cyclic", "cmp:levelize", "cmp:kcuts", "reconv:nonempty", "reconv:empty", "cmp:depth_rejects_cyclic", "cmp:fanout_depthL", "cmp:fanin_depth1", "kcuts:nontrivial_sets"]
     return [f"class {k} never observed" for k in need if counters.get(k, 0) < 5]
